@@ -12,10 +12,12 @@ All objects live in one flat memory (`Mem.Bytes`); a buffer is `(data, size)`:
 a `bytearray` (negative bound → `+ len`, then clamp into `[0, len]`; `s[i:j]` =
 the items `i ≤ k < j`), written with `List.take` / `List.drop`.
 
+A cdata right-hand side of `buf[i:j] = …` goes through `_fetch_as_buffer`, which
+reports `length * itemsize` for an array cdata and -1 for a pointer cdata.
+
 Assumed, not modelled: `memcpy` in `mb_ass_slice` is given `memmove`
 semantics (the source may in principle overlap; glibc/x86-64 copies
-correctly); a cdata right-hand side of `buf[i:j] = …` (`_fetch_as_buffer`
-leaves `view->len` uninitialised there).
+correctly).
 -/
 namespace CffiVerif.Buffer
 open CffiVerif.Mem
@@ -134,11 +136,22 @@ def setitem (m : Bytes) (b : Buf) (key : PyArg) (v : Val) : Bytes × Except Err 
       | some m' => (m', .ok ())
       | none => (m, .error .Fault)
 
+/-- Where the bytes of a cdata right-hand side are. -/
+inductive Loc
+  | ext (bs : Bytes)            -- outside the modelled memory, holding `bs`
+  | at (pos : Nat)              -- at flat position `pos`
+
 /-- Right-hand side of `buf[i:j] = …`. -/
 inductive Src
   | bytes (bs : Bytes)          -- a bytes-like object outside the modelled memory
   | view (pos len : Nat)        -- a bytes-like object inside the modelled memory
   | notBuffer                   -- no buffer interface: TypeError
+  | carray (n : Nat) (isize : Int) (loc : Loc)   -- a cdata array of n items of size isize
+  | cptr                        -- a cdata pointer: `_fetch_as_buffer` reports the length -1
+  | cother                      -- any other cdata: TypeError
+
+/-- `view->len` that `_fetch_as_buffer` reports for a cdata array. -/
+def carrayLen (n : Nat) (isize : Int) : Int := if isize ≥ 0 then n * isize else -1
 
 /-- `mb_ass_subscript` with a slice. -/
 def setslice (m : Bytes) (b : Buf) (start stop step : PyArg) (src : Src) : Bytes × Except Err Unit :=
@@ -159,6 +172,23 @@ def setslice (m : Bytes) (b : Buf) (start stop step : PyArg) (src : Src) : Bytes
       else match memmove m (b.data + l.toNat) pos len with
         | some m' => (m', .ok ())
         | none => (m, .error .Fault)
+    | .cother => (m, .error .TypeError)
+    | .cptr =>
+      let (l, r) := clampLR b.size s e
+      if (r - l) ≠ -1 then (m, .error .ValueError) else (m, .error .Fault)
+    | .carray n isize loc =>
+      let (l, r) := clampLR b.size s e
+      if (r - l) ≠ carrayLen n isize then (m, .error .ValueError)
+      else match loc with
+        | .ext bs =>
+          if bs.length ≠ (r - l).toNat then (m, .error .Fault)      -- ill-formed description
+          else match write m (b.data + l.toNat) bs with
+            | some m' => (m', .ok ())
+            | none => (m, .error .Fault)
+        | .at pos =>
+          match memmove m (b.data + l.toNat) pos (r - l).toNat with
+          | some m' => (m', .ok ())
+          | none => (m, .error .Fault)
 
 /-! ### Specification: Python `bytearray` semantics -/
 
